@@ -289,7 +289,7 @@ Dump == IsSc => PrintT(ToJson([sc |-> sc, expect |-> Predict(sc), core |-> Predi
 (* Secret-key classes (C01): SkToPk / Sign / PopProve accept exactly the   *)
 (* integers in [1, r-1]                                                    *)
 (***************************************************************************)
-ValidSkClasses == {"1", "2", "mid", "bits", "r-2", "r-1", "bandpk", "bandsig"}
+ValidSkClasses == {"1", "2", "mid", "bits", "r-2", "r-1", "bandpk", "bandsig", "intsub"}
 InvalidSkClasses == {"0", "r", "r+1", "-1", "2^255", "2r", "nonint"}
 SkAccepted(c) == c \in ValidSkClasses
 =============================================================================
